@@ -141,7 +141,7 @@ func (db *DB) Merge() error {
 		return err
 	}
 	// 向文件写入未参与该次 merge 的最近数据文件id
-	if err := mergeFinishedFile.WriteMergeFinRecord(nonMergeFileId); err != nil {
+	if err := mergeFinishedFile.WriteMergeFinRecord(nonMergeFileId, mergeDB.activeFile.ID+1); err != nil {
 		return err
 	}
 	if err := mergeFinishedFile.Close(); err != nil {
@@ -189,6 +189,7 @@ func (db *DB) mergePath() string {
 }
 
 // 尝试加载 merge 临时目录
+// 整个过程可重入: 任意一步之后进程崩溃, 下次启动重新执行均得到相同结果
 func (db *DB) loadMergeFiles() (uint32, error) {
 	mergePath := db.mergePath()
 	// 如果 merge 目录不存在或其他错误则执行正常加载流程
@@ -196,67 +197,75 @@ func (db *DB) loadMergeFiles() (uint32, error) {
 		return 0, nil
 	}
 
-	// 尝试从标识文件中取出未参与 merge 的最近数据文件 id
-	mergeID := db.getNonMergeFileID(mergePath)
-	// 标识文件不存在同样执行正常加载流程
-	if mergeID == 0 {
+	// 尝试从标识文件中取出未参与 merge 的最近数据文件 id 以及重写得到的数据文件个数
+	mergeID, mergedCount := db.getNonMergeFileID(mergePath)
+	// 标识文件不存在或不合法同样执行正常加载流程
+	if mergeID == 0 || mergedCount > mergeID {
 		return 0, nil
 	}
 
-	defer func() {
-		verifPoint("adopt.rmdir", mergeID)
-		// 加载完成后删除 merge 目录
-		_ = os.RemoveAll(mergePath)
-	}()
-
-	// 处理经过重写的数据文件, 处理中途失败需返回错误
-	for fileID := uint32(0); fileID < mergeID; fileID++ {
-		// 删除原数据文件
-		destName := datafile.GetFileName(db.options.DirPath, fileID, datafile.DataFileSuffix)
-		var exist bool
-		if _, err := os.Stat(destName); err == nil {
-			verifPoint("adopt.remove", fileID)
-			if err = os.Remove(destName); err != nil {
-				return 0, err
-			}
-			exist = true
-		}
-		// 将重写的数据文件移动到数据目录中
+	// 将重写的数据文件移动到数据目录中, 直接覆盖同 id 的原数据文件
+	// 重写文件不存在说明上次启动已完成移动
+	for fileID := uint32(0); fileID < mergedCount; fileID++ {
 		srcFile := datafile.GetFileName(mergePath, fileID, datafile.DataFileSuffix)
 		if _, err := os.Stat(srcFile); err != nil {
-			// 如果原数据文件不存在, 则允许重写文件不存在
-			if !exist && os.IsNotExist(err) {
+			if os.IsNotExist(err) {
 				continue
 			}
 			return 0, err
 		}
+		destName := datafile.GetFileName(db.options.DirPath, fileID, datafile.DataFileSuffix)
 		verifPoint("adopt.rename", fileID)
 		if err := os.Rename(srcFile, destName); err != nil {
 			return 0, err
 		}
 	}
 
-	// 移动对应的 hint 文件, 移动失败应当返回错误
+	// 删除参与了 merge 但没有对应重写文件的原数据文件
+	for fileID := mergedCount; fileID < mergeID; fileID++ {
+		destName := datafile.GetFileName(db.options.DirPath, fileID, datafile.DataFileSuffix)
+		verifPoint("adopt.remove", fileID)
+		if err := os.Remove(destName); err != nil && !os.IsNotExist(err) {
+			return 0, err
+		}
+	}
+
+	// 移动对应的 hint 文件, 不存在说明上次启动已完成移动
 	srcHintFile := datafile.GetFileName(mergePath, 0, datafile.HintFileSuffix)
 	destHintFile := datafile.GetFileName(db.options.DirPath, 0, datafile.HintFileSuffix)
-	if _, err := os.Stat(srcHintFile); err != nil {
+	if _, err := os.Stat(srcHintFile); err == nil {
+		verifPoint("adopt.hint", mergeID)
+		if err := os.Rename(srcHintFile, destHintFile); err != nil {
+			return 0, err
+		}
+	} else if !os.IsNotExist(err) {
 		return 0, err
 	}
-	verifPoint("adopt.hint", mergeID)
-	if err := os.Rename(srcHintFile, destHintFile); err != nil {
+
+	// 加载完成后删除 merge 目录, 先删除标识文件, 保证残留目录不会被再次加载
+	verifPoint("adopt.unmark", mergeID)
+	if err := os.Remove(datafile.GetFileName(mergePath, 0, datafile.MergeFinishedFileSuffix)); err != nil {
 		return 0, err
 	}
+	verifPoint("adopt.rmdir", mergeID)
+	_ = os.RemoveAll(mergePath)
 
 	return mergeID, nil
 }
 
-// 获取 merge 完成标识文件中保存的未参与 merge 的最近数据文件id
+// 获取 merge 完成标识文件中保存的未参与 merge 的最近数据文件id 和重写得到的数据文件个数
 // 返回 0 表示读取失败
-func (db *DB) getNonMergeFileID(dirPath string) datafile.FileID {
+func (db *DB) getNonMergeFileID(dirPath string) (datafile.FileID, uint32) {
+	if _, err := os.Stat(datafile.GetFileName(dirPath, 0, datafile.MergeFinishedFileSuffix)); err != nil {
+		return 0, 0
+	}
 	mergeFinishedFile, err := datafile.OpenFile(dirPath, 0, datafile.MergeFinishedFileSuffix, fio.StandardFIO)
 	if err != nil {
-		return 0
+		return 0, 0
 	}
+	defer func() {
+		_ = mergeFinishedFile.Close()
+	}()
 	return mergeFinishedFile.ReadMergeFinRecord()
 }
 
